@@ -448,7 +448,12 @@ def shapes(law, chan, case):
                 out.append('token|interpolated-control-loses-its-terminator')
     if law == 'quote' and chan == 'equal' and kept:
         out.append('quote|kept-escape')
-    return out
+    return [x for x in out if x not in RETIRED]
+
+
+# shapes whose defect has been repaired in rsass: they no longer excuse a failing case (a case that has such a shape and fails
+# is attributed to its other listed shapes, or reported as `no-listed-feature`)
+RETIRED = {'source|continuation-in-double-quotes', 'token|private-use-before-hex-or-blank'}
 
 
 def coarse(obs):
